@@ -3,8 +3,13 @@
    alphabet is written as one ndjson row to IOEnv.OUT (the vector only; its meaning is computed by Trace_CmdLine when
    the log recorded from the real parser and runner is validated); IOEnv.PROBE receives the probe registry. *)
 EXTENDS CmdLineLattice, Json, IOUtils, SequencesExt
-ASSUME ndJsonSerialize(IOEnv.PROBE, <<[tests |-> Probe]>>)
 \* IOEnv.LEN = "num": the numeric vectors (counts and seeds over the whole documented range and outside it)
-ASSUME ndJsonSerialize(IOEnv.OUT, SetToSeq({ [tok |-> v] : v \in (IF IOEnv.LEN = "num" THEN NumVectors ELSE VectorsOfLen(atoi(IOEnv.LEN))) }))
+\* IOEnv.LEN = "words": the word registry (every pair of words of <= IOEnv.WLEN letters) as probe, and every vector of one filter
+\*                      option whose text is a word (pair of words) of <= IOEnv.FLEN letters
+IsWords == IOEnv.LEN = "words"
+ASSUME ndJsonSerialize(IOEnv.PROBE, <<[tests |-> IF IsWords THEN SetToSeq(WordTests(atoi(IOEnv.WLEN))) ELSE Probe]>>)
+ASSUME ndJsonSerialize(IOEnv.OUT, SetToSeq({ [tok |-> v] : v \in (IF IOEnv.LEN = "num" THEN NumVectors
+                                                                  ELSE IF IsWords THEN WordVectors(atoi(IOEnv.FLEN))
+                                                                  ELSE VectorsOfLen(atoi(IOEnv.LEN))) }))
 GSpec == Start(<<>>) /\ [][UNCHANGED vars]_vars
 =============================================================================
